@@ -152,4 +152,8 @@ theorem R1_reverse_append (u v : List α) : (u ++ v).reverse = v.reverse ++ u.re
 theorem R2_reverse_reverse (w : List α) : w.reverse.reverse = w :=
   List.reverse_reverse w
 
+/-- (X1) languages with the same words are equal: the SMT axiom "Language.ext" of theory `thompson`. -/
+theorem X1_language_ext {α : Type u} (X Y : Language α) (h : ∀ w, w ∈ X ↔ w ∈ Y) : X = Y :=
+  Set.ext h
+
 end GvcTheory
